@@ -23,7 +23,7 @@ ASSUMPTIONS = ['OperativeModel restates the rule: defaults (representable, allow
                'supplied names, most recent value wins', 'probe bodies record arguments only']
 WITNESSES = ['param_from_earlier_call_kept', 'caller_supplied_omitted', 'scoped_section', 'macro_as_definition',
              'constant_omitted', 'denylisted_default_omitted', 'nonrepresentable_omitted', 'method_section',
-             'replay_same_records', 'replay_same_text', 'uncalled_absent', 'evaluated_ref_section']
+             'replay_same_records', 'replay_same_text', 'uncalled_absent', 'evaluated_ref_section', 'rebound_between_calls']
 
 REC = []
 CONST = object()
@@ -159,7 +159,8 @@ EVENTS = {
     'g()': ('c07.g', [], [], {}),
 }
 EVENTS_Q = ['f()', "f('pos')", 'f(b=2)', 's:f()', 's/t:f()', 'consumer()', "consumer('x')", 'al()', 'dl()',
-            'K().m()', 'u/K().m()', "K().m(v='cv')", "s:f(a='ka')", 'al(y=5)']
+            'K().m()', 'u/K().m()', "K().m(v='cv')", "s:f(a='ka')", 'al(y=5)', 'g()', 'bind f.b=1', 'bind f.b=True',
+            'bind g.t=%mm', 'bind g.t=%mm2', 'bind consumer.p=@s/g()', 'bind consumer.p=@u/g()']
 
 
 def bound(tier):
@@ -168,6 +169,12 @@ def bound(tier):
 
 
 def do_event(ev):
+  if ev in REBIND:
+    try:
+      gin.parse_config(REBIND[ev][0])
+      return 'ok'
+    except Exception as e:  # pylint: disable=broad-except
+      return type(e).__name__
   target, scope, args, kwargs = EVENTS[ev]
   try:
     if target == 'K.m':
@@ -204,7 +211,7 @@ def canon_model(v):
     return ('T',) + tuple(canon_model(x) for x in v)
   if isinstance(v, dict):
     return {k: canon_model(x) for k, x in v.items()}
-  return v
+  return ('scalar', type(v).__name__, repr(v))   # 1, True and 1.0 compare equal but are different values
 
 
 def canon_real(v):
@@ -216,12 +223,25 @@ def canon_real(v):
     return ('T',) + tuple(canon_real(x) for x in v)
   if isinstance(v, dict):
     return {k: canon_real(x) for k, x in v.items()}
-  return v
+  return ('scalar', type(v).__name__, repr(v))
+
+
+# events that re-bind a parameter between calls (value texts that compare equal to the previous value included)
+REBIND = {
+    'bind f.b=1': ("c07.f.b = 1", ('', 'c07.f'), 'b', 1),
+    'bind f.b=True': ("c07.f.b = True", ('', 'c07.f'), 'b', True),
+    'bind f.b=1.0': ("c07.f.b = 1.0", ('', 'c07.f'), 'b', 1.0),
+    'bind g.t=%mm': ("c07.g.t = %mm\nmm = 'macroval'", ('', 'c07.g'), 't', MAC('mm')),
+    'bind g.t=%mm2': ("c07.g.t = %mm2\nmm2 = 'second'", ('', 'c07.g'), 't', MAC('mm2')),
+    'bind consumer.p=@s/g()': ("c07.consumer.p = @s/c07.g()", ('', 'c07.consumer'), 'p', Ref('s', 'c07.g')),
+    'bind consumer.p=@u/g()': ("c07.consumer.p = @u/c07.g()", ('', 'c07.consumer'), 'p', Ref('u', 'c07.g')),
+}
+REBIND_MACROS = {'bind g.t=%mm': (('mm', 'gin.macro'), 'macroval'), 'bind g.t=%mm2': (('mm2', 'gin.macro'), 'second')}
 
 
 class Model:
   def __init__(self, cname):
-    self.config = CONFIGS[cname]['model']
+    self.config = {k: dict(v) for k, v in CONFIGS[cname]['model'].items()}
     self.record = {}
     self.nonrep_supplied = False
 
@@ -262,6 +282,13 @@ class Model:
         self.evaluate(x, eff)
 
   def event(self, ev):
+    if ev in REBIND:
+      _, key, param, val = REBIND[ev]
+      self.config.setdefault(key, {})[param] = val
+      if ev in REBIND_MACROS:
+        mk, mv = REBIND_MACROS[ev]
+        self.config.setdefault(mk, {})['value'] = mv
+      return
     target, scope, args, kwargs = EVENTS[ev]
     if target == 'K.m':
       self.call('c07.K', list(scope), [], {}, has_self=True)
@@ -364,7 +391,8 @@ class World:
                     'model-only/changed: %r\nreal-only/changed: %r\n%s' % (self.cname, hist, missing, extra, text), art)
       return
     # ---- (2) replay
-    if not self.model.nonrep_supplied:
+    # (replay equivalence is stated for a fixed configuration: not applied to histories that re-bind between calls)
+    if not self.model.nonrep_supplied and not any(e in REBIND for e in self.events):
       del REC[:]
       outs = [do_event(e) for e in self.events]
       if REC != records_first:
@@ -380,6 +408,13 @@ class World:
         res.w('replay_same_text')
     # ---- witnesses
     rec = self.model.record
+    if ev in REBIND:
+      if any(e in REBIND for e in self.events[:-1]):
+        res.w('rebound_between_calls')
+      install(self.cname)
+      for e in self.events:
+        do_event(e)
+      return
     if len(self.events) >= 2:
       tgt = EVENTS[ev]
       key = ('/'.join(tgt[1]), tgt[0])
@@ -412,7 +447,7 @@ class World:
 def run(ctx):
   res = core.Result()
   mod = __import__('checks.c07', fromlist=['x'])
-  evs = EVENTS_Q if ctx.quick else list(EVENTS)
+  evs = EVENTS_Q if ctx.quick else list(EVENTS) + list(REBIND)
   depth = 3 if ctx.quick else 4
   res.extra['alphabet'] = evs
   for cname in CONFIGS:
@@ -429,6 +464,6 @@ def run(ctx):
 
 def replay(obj):
   World.CNAME = obj['config']
-  World.EVS = list(EVENTS)
+  World.EVS = list(EVENTS) + list(REBIND)
   mod = __import__('checks.c07', fromlist=['x'])
   return bfs.replay_history(mod, obj['events'])
